@@ -36,11 +36,21 @@ class EFLRSetsDict(defaultdict):
     def try_add_set(self, eflr_set: EFLRSet) -> bool:
         """Try to register a new EFLRSet instance in the structure. Return True on success, False otherwise."""
 
-        if eflr_set.set_name in self[eflr_set.__class__]:
-            return False
-        else:
-            self[eflr_set.__class__][eflr_set.set_name] = eflr_set
-            return True
+        sets = self[eflr_set.__class__]
+        if eflr_set.set_name in sets:
+            if sets[eflr_set.set_name].n_items:
+                return False
+
+            # a set without items was left behind by an add_* call which raised: it has no position among the sets yet
+            del sets[eflr_set.set_name]
+
+        if not any(s.n_items for s in sets.values()):
+            # neither has a set type which only holds such sets: it gets its position now, as if those calls had never been made
+            del self[eflr_set.__class__]
+            self[eflr_set.__class__].update(sets)
+
+        self[eflr_set.__class__][eflr_set.set_name] = eflr_set
+        return True
 
     def get_or_make_set(self, eflr_set_type: type[AnyEFLRSet], set_name: Optional[str] = None) -> AnyEFLRSet:
         """Given an EFLRSet subclass and name, either retrieve a relevant EFLRSet from the structure or create it.
